@@ -3,7 +3,7 @@
 T=$1; A=$2; B=$3; shift 3
 cd /verif
 for s in $(seq $A $B); do for p in "$@"; do
-  VERIF_SEED=$s timeout 7200 ./check $p $T > out/soak_${p}_$s.log 2>&1; rc=$?
+  VERIF_EVIDENCE_DIR=/verif/out/evidence_soak VERIF_SEED=$s timeout 7200 ./check $p $T > out/soak_${p}_$s.log 2>&1; rc=$?
   echo "$p seed=$s rc=$rc $(grep -c '^VIOLATION' out/soak_${p}_$s.log) violations"
   [ $rc = 0 ] && rm -f out/soak_${p}_$s.log
 done; done
